@@ -19,6 +19,11 @@ structure VerObs where
   version : Nat
   localHash : Nat
   refused : Bool
+  /-- which text was decoded: layout and what was done to its "data" member (`""`: the minified text as written) -/
+  what : String := ""
+  /-- the "data" member of the text `to_json` wrote was removed / replaced: only the refusal direction is demanded
+  (what decoding a foreign document with a *matching* version gives is not the property's business) -/
+  altered : Bool := false
   deriving Repr
 
 structure Obs where
@@ -32,8 +37,10 @@ structure Obs where
 def clauses (o : Obs) : List (String × Bool) :=
   (o.trips.map fun t => ("roundtrip_" ++ t.name ++ "_is_identity", t.bytes == some o.orig)) ++
   [("copy_shares_no_storage", !o.copyShares)] ++
-  (o.vers.map fun v => ("json_version_" ++ (if versionRefused v.version v.localHash then "mismatch_refused" else "match_accepted"),
-      v.refused == versionRefused v.version v.localHash))
+  (o.vers.map fun v =>
+    let exp := versionRefused v.version v.localHash
+    ("json_version_" ++ (if exp then "mismatch_refused" else "match_accepted") ++ (if v.what == "" then "" else "_" ++ v.what),
+      if v.altered then !exp || v.refused else v.refused == exp))
 
 def holds (o : Obs) : Prop := ∀ c ∈ clauses o, c.2 = true
 
